@@ -451,6 +451,15 @@ def check(prop, tier):
         for path, suffix in violations:
             print("VIOLATION property=%s replay=%s%s" % (prop, path, suffix), flush=True)
         return 1
+    # the protocol transcripts of a run that found nothing are of no further use (replays carry
+    # their own requests); they can be gigabytes in the thorough tier
+    for f in os.listdir(work):
+        if f == "requests.txt" or f.startswith("real-") or f.startswith("model-"):
+            try:
+                if os.path.getsize(os.path.join(work, f)) > (64 << 20):
+                    os.remove(os.path.join(work, f))
+            except OSError:
+                pass
     log("%s %s: OK  (%d/%d obligations, %d replies compared, %.1fs)" % (prop, tier, discharged, obligations, n_diffed, wall))
     return 0
 
